@@ -6,3 +6,20 @@
 // TRUSTED(T3): String == str compares the character sequences.
 pub assume_specification[ <String as PartialEq<str>>::eq ](a: &String, b: &str) -> (r: bool)
     ensures r == (a@ == b@);
+
+// TRUSTED(T3): String::cmp is the lexicographic order on the character sequences
+// (byte-wise on UTF-8, which coincides with code-point order); modelled as an
+// uninterpreted total comparison with the laws the proofs need.
+pub uninterp spec fn str_cmp(a: Seq<char>, b: Seq<char>) -> Ordering;
+
+pub assume_specification[ <String as Ord>::cmp ](a: &String, b: &String) -> (r: Ordering)
+    ensures r == str_cmp(a@, b@);
+
+pub axiom fn axiom_str_cmp_laws()
+    ensures
+        forall|a: Seq<char>, b: Seq<char>| (#[trigger] str_cmp(a, b) == Ordering::Equal) <==> a == b,
+        forall|a: Seq<char>, b: Seq<char>| (#[trigger] str_cmp(a, b) == Ordering::Less) <==> (str_cmp(b, a) == Ordering::Greater);
+
+// TRUSTED(T3): derived PartialEq on std::cmp::Ordering is equality of the variants.
+pub assume_specification[ <Ordering as PartialEq>::eq ](a: &Ordering, b: &Ordering) -> (r: bool)
+    ensures r == (*a == *b);
